@@ -191,8 +191,9 @@ def main(argv):
                 reason = 'decision limit'
             elif r.inconclusive:
                 reason = 'solver unknown on %d obligations' % len(r.inconclusive)
-            if reason and not r.violations:
-                not_encoded[r.name] = reason
+            if reason:
+                # violations found on the explored part are still triaged (they were collected above)
+                not_encoded[r.name] = reason + (' (violations found on the explored part are reported)' if r.violations else '')
             else:
                 kept.append(r)
         dropped = [r for r in results if r.name in not_encoded]
